@@ -198,6 +198,7 @@ def run_lib(case, proj, st, res):
             res.violation("crash", "get_status_map raised %r on a valid workflow" % (e,), variant=variant)
             continue
         got = {t.name: s.name.lower() for t, s in sm.items()}
+        res.obs("variant%d" % vi, {"targets": [(v["name"], v["ins_expr"], v["outs_expr"]) for v in variant], "gwf_status": got, "oracle": st})
         for name, want in st.items():
             res.mon("lib_status_rows")
             if got.get(name) != want:
@@ -227,6 +228,7 @@ def run_cli(case, proj, st, res):
         res.violation("crash", "gwf status failed on a valid workflow", **cli.crash_witness(r))
         return
     got = dict(cli.parse_status(r.out))
+    res.obs("cli", {"gwf_status": got, "oracle": st})
     for name, want in st.items():
         res.mon("cli_status_rows")
         if got.get(name) != want:
